@@ -53,4 +53,4 @@ try:
 except Exception: pass
 json.dump(meta,open('/verif/seeded/%s/meta.json'%pid,'w'),indent=1)
 PY
-rm -rf $S
+if [ -n "${KEEP:-}" ]; then echo "kept $S"; else rm -rf "/tmp/$(basename $S)"; fi
